@@ -5,11 +5,22 @@ import (
 	"math/big"
 )
 
+// Decompress recovers the public key from the 33-byte encoding produced by
+// Compress: one byte holding the parity of y (0 or 1) followed by the 32-byte
+// big-endian x coordinate.
+// It returns nil if a is not such an encoding: wrong length, a first byte other
+// than 0 or 1, x not less than p, or x not the abscissa of a point of the curve.
 func Decompress(a []byte) *PublicKey {
 	var aa, xx, xx3 sm2P256FieldElement
 
 	P256Sm2()
+	if len(a) != 33 || a[0] > 1 {
+		return nil
+	}
 	x := new(big.Int).SetBytes(a[1:])
+	if x.Cmp(sm2P256.P) >= 0 {
+		return nil
+	}
 	curve := sm2P256
 	sm2P256FromBig(&xx, x)
 	sm2P256Square(&xx3, &xx)       // x3 = x ^ 2
@@ -20,6 +31,9 @@ func Decompress(a []byte) *PublicKey {
 
 	y2 := sm2P256ToBig(&xx3)
 	y := new(big.Int).ModSqrt(y2, sm2P256.P)
+	if y == nil {
+		return nil
+	}
 	if getLastBit(y) != uint(a[0]) {
 		y.Sub(sm2P256.P, y)
 	}
